@@ -71,6 +71,17 @@ fn main() {
 }
 
 fn replay_file(path: &Path, quiet: bool) -> i32 {
+    // scratch space for replays (files of binary-level checks); removed afterwards
+    let run_dir = work_dir().join(format!("replay_{}", std::process::id()));
+    let _ = std::fs::create_dir_all(&run_dir);
+    std::env::set_var("VERIF_RUN_DIR", &run_dir);
+    std::env::set_var("TMPDIR", tmp_dir());
+    let rc = replay_file_inner(path, quiet);
+    let _ = std::fs::remove_dir_all(&run_dir);
+    rc
+}
+
+fn replay_file_inner(path: &Path, quiet: bool) -> i32 {
     install_panic_hook();
     let rf: ReplayFile = match std::fs::read(path)
         .ok()
